@@ -153,6 +153,18 @@ async fn run_cfg<TC: Tcfg>(case: &Case, st: &mut Stats) -> R {
     }
     let _ = m_follow.publish(&target);
     let exp_follow = m_follow.publish(&followup).map_err(|_| Fail { sig: "harness".into(), msg: "follow-up batch invalid".into() })?;
+    // alternative order: the follow-up batch first (the failed call never made), then the target
+    let mut m_alt = Model::new(TC::CFG, &key);
+    for b in batches.iter() {
+        let _ = m_alt.publish(b);
+    }
+    let exp_alt1 = m_alt.publish(&followup).map_err(|_| Fail { sig: "harness".into(), msg: "follow-up batch invalid".into() })?;
+    let mut m_alt_after = Model::new(TC::CFG, &key);
+    for b in batches.iter() {
+        let _ = m_alt_after.publish(b);
+    }
+    let _ = m_alt_after.publish(&followup);
+    let exp_alt2 = m_alt_after.publish(&target).map_err(|_| Fail { sig: "harness".into(), msg: "target batch invalid after follow-up".into() })?;
     // fault-free run: K
     let inst = instance::<TC>(case.mgr, case.par, &key, &s_a, &s_b, last_prefix).await?;
     let pre = snapshot(&inst.vdb.inner).await;
@@ -210,6 +222,15 @@ async fn run_cfg<TC: Tcfg>(case: &Case, st: &mut Stats) -> R {
             // a fresh instance agrees
             let fresh = new_dir::<TC, _>(manager(inst.vdb.inner.clone(), CacheKind::None), &key, ParKind::Disabled).await?;
             serves_state::<TC, _>(&fresh, &m, &pk, &labels, k as usize + 1, &format!("{what}; fresh instance")).await?;
+            if (k + outage as u64) % 2 == 1 {
+                // a DIFFERENT publish straight after the failure (no retry first): nothing of the failed call may leak into it
+                let eh = inst.dir.publish(to_batch(&followup)).await.map_err(|e| Fail { sig: "followup-failed".into(), msg: format!("{what}: a different publish right after the failed one failed: {e:?}") })?;
+                ensure!((eh.0, eh.1) == exp_alt1, "failed-publish-leaks-into-next", "{what}: a different publish right after the failed one returned ({}, {}), but the model (failed call never made) expects ({}, {})", eh.0, hex::encode(&eh.1[..6]), exp_alt1.0, hex::encode(&exp_alt1.1[..6]));
+                serves_state::<TC, _>(&inst.dir, &m_alt, &pk, &labels, k as usize, &format!("{what}; after a different publish following the failure")).await?;
+                let eh = inst.dir.publish(to_batch(&target)).await.map_err(|e| Fail { sig: "retry-failed".into(), msg: format!("{what}: the originally failed publish, repeated after another publish, failed: {e:?}") })?;
+                ensure!((eh.0, eh.1) == exp_alt2, "retry-result", "{what}: failed publish repeated after a different one returned ({}, {}), expected ({}, {})", eh.0, hex::encode(&eh.1[..6]), exp_alt2.0, hex::encode(&exp_alt2.1[..6]));
+                continue;
+            }
             // retry succeeds and ends where the fault-free run ends
             let eh = inst.dir.publish(to_batch(&target)).await.map_err(|e| Fail { sig: "retry-failed".into(), msg: format!("{what}: retry of the same publish failed: {e:?}") })?;
             ensure!((eh.0, eh.1) == exp_next, "retry-result", "{what}: retry returned ({}, {}), expected ({}, {})", eh.0, hex::encode(eh.1), exp_next.0, hex::encode(exp_next.1));
